@@ -233,3 +233,51 @@ fn d10_failed_rollover_keeps_writer_consistent() {
         other => panic!("acknowledged k2 unreadable after failed rollover: {:?}", other.map(|r| r.map_err(|e| e.to_string()))),
     }
 }
+
+/// D11 (C20) — known finding, reproduced on the current tree: a merge that fails after it has
+/// re-pointed keys to its first output returns without rotating the active file above that
+/// output. A later acknowledged overwrite goes to the old active file (lower id); recovery
+/// replays it BEFORE the merge output's hint file and the overwrite is lost.
+#[test]
+fn d11_failed_merge_then_overwrite_reverts_on_reopen() {
+    let dir = tempfile::tempdir().unwrap();
+    let conf = Config::default()
+        .concurrency(1)
+        .merge_policy(MergePolicy::Never)
+        .max_file_size(512)
+        .path(dir.path())
+        .to_owned();
+    let mut failed = false;
+    let mut acked: Vec<String> = Vec::new();
+    {
+        let kv = conf.clone().open().unwrap();
+        let h = kv.get_handle();
+        for i in 0..60 {
+            h.put(b(&format!("key-{:03}", i)), b(&format!("value-{:03}", i))).unwrap();
+        }
+        // the merge will create outputs active+1, active+2, ...: make the SECOND output's hint
+        // file impossible to create (the fault), so merge() fails after re-pointing some keys
+        let active = utils::sorted_fileids(dir.path()).unwrap().last().unwrap();
+        std::fs::create_dir(utils::hintfile_name(dir.path(), active + 2)).unwrap();
+        if h.merge().is_err() {
+            failed = true;
+        }
+        // overwrite every key; only overwrites that were ACKNOWLEDGED (Ok) count — once the active
+        // file is full the rollover itself fails (the id above it is taken by the merge output)
+        for i in 0..60 {
+            let k = format!("key-{:03}", i);
+            if h.put(b(&k), b("NEW")).is_ok() {
+                assert_eq!(Some(b("NEW")), h.get(b(&k)).unwrap());
+                acked.push(k);
+            }
+        }
+        std::fs::remove_dir(utils::hintfile_name(dir.path(), active + 2)).unwrap();
+    }
+    assert!(failed, "the planted fault did not make the merge fail");
+    assert!(!acked.is_empty(), "no overwrite was acknowledged");
+    let kv = conf.open().unwrap();
+    let h = kv.get_handle();
+    for k in acked {
+        assert_eq!(Some(b("NEW")), h.get(b(&k)).unwrap(), "acknowledged overwrite of {} reverted after reopen", k);
+    }
+}
